@@ -76,7 +76,7 @@ def method(cls, name, raw=False):
     if name not in meths:
         raise AnalysisError('anchor vanished: PIDInterface.%s' % name)
     # a prior that hands over to a sibling (`return self.other_prior(name, value)`) is analysed with the sibling's body in place
-    return meths[name] if raw else util.inline_helper_calls(util.inline_tail_self_calls(meths[name], meths), meths)
+    return meths[name] if raw else util.split_parallel_assigns(util.inline_helper_calls(util.inline_tail_self_calls(meths[name], meths), meths))
 
 
 def _v(pt, name):
